@@ -15,7 +15,18 @@ from harness.common.c20_spec import Monitor
 
 PID = "C20"
 LEVEL = "proof"
-REQUIRED_THEOREMS = []
+REQUIRED_THEOREMS = [
+    "read_returns_appended_in_order", "read_returns_appended_from", "refines_run", "items_eq_contents",
+    "template_present", "mode_truncate", "mode_truncate_once", "mode_append", "readonly_rejects",
+    "mode_unknown_rejects", "start_accepted_iff", "append_accepted_iff", "rejected_keeps_contents",
+    "truncate_once_then_append", "append_mode_never_truncates", "readonly_frozen_partial",
+    "readonly_append_accepted", "bisect_spec", "bisectLeft_sorted", "bisectRight_sorted",
+    "extract_time_range_is_slice", "extract_time_range_consistent", "extract_time_range_defaults",
+    "extract_time_range_empty", "extractFieldPlan_cases", "sliceFrame_blocks", "sliceFrame_exhaustive",
+    "extract_field_consistent", "view_field_consistent", "copy_apply_consistent", "mapFrames_applyTo",
+    "inv_step", "frames_immutable", "world_refines_store", "world_run_refines", "extract_time_range_world",
+    "extract_field_world", "apply_world",
+]
 RULE = ("adaptive random operation sequences of length 5-40 over newField/setField/newStore/setMode/"
         "start_writing/append/end_writing/clear/read/items/slice/extract_time_range/extract_field/view_field/"
         "copy/apply/from_fields/direct frame writes, drawn from 8 field profiles (scalar, vector, tensor, "
